@@ -45,7 +45,7 @@ def run(tier, wd):
         raise core.Broken("Apps.tla with PooledContext=TRUE should violate Independent (vacuity guard)")
     # (2) the real library under the race detector: sequential permuted orders, then concurrent goroutines
     racebin = core.build_harness(race=True)
-    total_seq = total_conc = 0
+    total_seq = total_conc = ncases = 0
     runs = 3 if q else 12
     rounds, gor = (6, 16) if q else (40, 32)
     samples = []
@@ -69,12 +69,13 @@ def run(tier, wd):
         total_seq += o["sequential_runs"]
         total_conc += o["concurrent_runs"]
         samples = o["samples"]
+        ncases = max(ncases, o["cases"])
         if o["mismatches"]:
             rep.violation("outcomes differ from the same application run alone (seed %d): %s" % (seed, o["mismatches"][:3]), {"engine": "conc", "seed": seed, "rounds": rounds, "goroutines": gor})
         if not o["shared_defaults_intact"]:
             rep.violation("default slices shared by the builders were modified by running applications (seed %d)" % seed, {"engine": "conc", "seed": seed, "rounds": rounds, "goroutines": gor})
     rep.cov["evaluations"] = total_seq + total_conc
-    rep.cov["distinct_nontrivial"] = 29
+    rep.cov["distinct_nontrivial"] = ncases
     rep.cov["sequential_runs"] = total_seq
     rep.cov["concurrent_runs"] = total_conc
     rep.cov["goroutines"] = gor
@@ -83,9 +84,9 @@ def run(tier, wd):
     rep.cov["samples"] = samples or ["(no sample)"]
     rep.cov["traces_validated_against_impl"] = total_seq + total_conc
     rep.cov["rule"] = ("5 application builders (explicit and default specs, sub commands with interceptors, environment-backed options, multi-valued options "
-                       "whose default slices live in variables shared by all instances) x 29 (application, argument vector) cases incl. help, rejected input and "
+                       "whose default slices live in variables shared by all instances) x the (application, argument vector) cases of harness/conc.go incl. help, rejected input and "
                        "conversion errors: each is run alone, then rebuilt and rerun in %d permuted orders, then by %d goroutines concurrently, all under Go's race "
-                       "detector; distinct = the 29 cases; every run must equal the first. Apps.tla (N=3, all interleavings of the five lifecycle steps) is "
+                       "detector; distinct = the cases (counted by the harness); every run must equal the first. Apps.tla (N=3, all interleavings of the five lifecycle steps) is "
                        "checked with the shared-variable table scanned from the sources" % (rounds, gor))
     rep.assumptions += ["data-race freedom is observed by Go's race detector on the schedules that occurred, not proved; TLA+ contributes the interleaving model "
                         "and the shared-variable table (DESIGN section 7)",
